@@ -155,22 +155,41 @@ def run_property(prop, tier, seed, jobs, wd, only=None, keep_logs=None, t0=None)
     rc = 0
     confirmed = 0
     by_h = {}
+    wall_of = {}
     for r, f, p, _ in violations:
         by_h.setdefault((r["config"], r["harness"]), []).append((f, p))
-    for (cfg, h), fl in by_h.items():
+        wall_of[(r["config"], r["harness"])] = r["wall_s"]
+    # replay the cheapest failing harnesses (Kani's playback generation re-runs the slow driver)
+    max_replay = int(os.environ.get("VERIF_MAX_REPLAY", "2"))
+    order = sorted(by_h, key=lambda k: wall_of[k])
+    chosen, skipped = order[:max_replay], order[max_replay:]
+
+    def do_replay(key):
+        cfg, h = key
         c = suites.CONFIGS[cfg]
         path = os.path.join(REPLAY, "%s__%s__%s.json" % (prop, cfg, h))
-        ok, info = playback.replay(wd, cfg, c, h, fl, path, pretty=built[cfg][h]["pretty"])
+        ok, info = playback.replay(wd, cfg, c, h, by_h[key], path, pretty=built[cfg][h]["pretty"])
+        return key, ok, info, path
+
+    with ThreadPoolExecutor(max_workers=max(1, len(chosen))) as ex:
+        replays = list(ex.map(do_replay, chosen))
+    for (cfg, h), ok, info, path in replays:
+        fl = by_h[(cfg, h)]
         props = sorted(set(p for _, p in fl))
         if ok:
             confirmed += 1
             for p in props:
                 lines.append("VIOLATION property=%s replay=%s" % (p, path))
+            for f, p in fl[:3]:
+                lines.append("  failed: [%s/%s] %s" % (cfg, h, f["desc"][:200]))
             rc = 1
         else:
             lines.append("UNCONFIRMED property=%s harness=%s: solver counterexample did not reproduce natively (%s)" % (",".join(props), h, info))
             if rc == 0:
                 rc = 2
+    for (cfg, h) in skipped:
+        fl = by_h[(cfg, h)]
+        lines.append("ALSO-FAILING (not replayed) property=%s harness=%s/%s: %s" % (",".join(sorted(set(p for _, p in fl))), cfg, h, fl[0][0]["desc"][:160]))
     for r, f, p, k in known_hits:
         lines.append("KNOWN-FINDING: property=%s %s" % (p, k["what"]))
     for r, why in machinery:
